@@ -50,53 +50,36 @@ class DictionaryDataBase(DataBase):
             return OPERATOR_MAPPING[operator](query_with_attribute, ref_value)
         raise ValueError(f"Invalid operator: {operator}")
 
+    def _statement_matches(self, data: dict, statement) -> bool:
+        """
+        Evaluate one filter statement on one data container. A data object that lacks the attribute, or whose
+        value cannot be compared with the reference value, does not satisfy the statement.
+        """
+        try:
+            return bool(
+                self._create_query_search(
+                    self._get_nested(data, str(statement.attribute)),
+                    str(statement.operator),
+                    statement.ref_value,
+                )
+            )
+        except (KeyError, TypeError, IndexError):
+            return False
+
     def _filter_data(
         self, data_filter: Filter, database: list[dict]
     ) -> tuple[dict, ...]:
         list_of_data = []
-        if data_filter.filter_statement_2 is not None:
-            if str(data_filter.logical_operator) == "and":
-                for data in database:
-                    if self._create_query_search(
-                        self._get_nested(
-                            data, str(data_filter.filter_statement_1.attribute)
-                        ),
-                        str(data_filter.filter_statement_1.operator),
-                        data_filter.filter_statement_1.ref_value,
-                    ) & self._create_query_search(
-                        self._get_nested(
-                            data, str(data_filter.filter_statement_2.attribute)
-                        ),
-                        str(data_filter.filter_statement_2.operator),
-                        data_filter.filter_statement_2.ref_value,
-                    ):
-                        list_of_data.append(data)
-            else:
-                for data in database:
-                    if self._create_query_search(
-                        self._get_nested(
-                            data, str(data_filter.filter_statement_1.attribute)
-                        ),
-                        str(data_filter.filter_statement_1.operator),
-                        data_filter.filter_statement_1.ref_value,
-                    ) | self._create_query_search(
-                        self._get_nested(
-                            data, str(data_filter.filter_statement_2.attribute)
-                        ),
-                        str(data_filter.filter_statement_2.operator),
-                        data_filter.filter_statement_2.ref_value,
-                    ):
-                        list_of_data.append(data)
-        else:
-            for data in database:
-                if self._create_query_search(
-                    self._get_nested(
-                        data, str(data_filter.filter_statement_1.attribute)
-                    ),
-                    str(data_filter.filter_statement_1.operator),
-                    data_filter.filter_statement_1.ref_value,
-                ):
-                    list_of_data.append(data)
+        for data in database:
+            matches = self._statement_matches(data, data_filter.filter_statement_1)
+            if data_filter.filter_statement_2 is not None:
+                second = self._statement_matches(data, data_filter.filter_statement_2)
+                if str(data_filter.logical_operator) == "and":
+                    matches = matches and second
+                else:
+                    matches = matches or second
+            if matches:
+                list_of_data.append(data)
         return tuple(list_of_data)
 
     def search(self, data_request: RequestDataObjectsReq) -> tuple[dict, ...]:
